@@ -75,11 +75,12 @@ def paramflow(prog, rep, fam):
     b = fam.b(fn)
     pcs = path_conditions(prog, fn, b)
     rd = rd_of(fn)
-    ret = fam.return_stmt(fn)
+    rets = fam.return_stmts(fn)
+    ret = rets[-1]
     formals = [p for p in fn.positional_params if p != "self"]
     site = fn.where(ret)
-    if not isinstance(ret.value, ast.Tuple):
-        raise AnalysisError(f"{fn.qualname}: return is not a tuple display")
+    if not all(isinstance(r_.value, ast.Tuple) for r_ in rets) or len({len(r_.value.elts) for r_ in rets}) != 1:
+        raise AnalysisError(f"{fn.qualname}: returns are not tuple displays of one length")
     # per returned slot: list of (alternative term, path condition of its defining statement)
     from vstat.guards import literals as _lits
 
@@ -93,18 +94,18 @@ def paramflow(prog, rep, fam):
         kind = "assign"
         stmt = ret
 
-    slot_alts = []
-    for el in ret.value.elts:
-        al = []
-        if isinstance(el, ast.Name):
-            for d in rd.reaching(el.id, ret):
-                if d.kind == "param":
-                    al.append((b.def_term(d), None, d))
-                else:
-                    al += split(b.def_term(d), pcs.of(d.stmt), d)
-        else:
-            al += split(b.term(el, ret), pcs.of(ret), _Synth)
-        slot_alts.append(al)
+    slot_alts = [[] for _ in ret.value.elts]
+    for r_ in rets:
+        for k_, el in enumerate(r_.value.elts):
+            al = slot_alts[k_]
+            if isinstance(el, ast.Name):
+                for d in rd.reaching(el.id, r_):
+                    if d.kind == "param":
+                        al.append((b.def_term(d), None if len(rets) == 1 else tuple(pcs.of(r_)), d) if len(rets) == 1 else (b.def_term(d), None, d))
+                    else:
+                        al += split(b.def_term(d), tuple(pcs.of(d.stmt)) + tuple(l for l in pcs.of(r_) if l not in pcs.of(d.stmt)), d)
+            else:
+                al += split(b.term(el, r_), pcs.of(r_), _Synth)
     for p in formals:
         inst = f"{fam.ci.qualname}._get_scipy_parameters:{p}"
         pt = P(p)
@@ -162,7 +163,7 @@ def slots(prog, rep, fam):
     dist, table = SLOT_TABLE[fam.name]
     sig = scipyinfo.positional_signature(dist)
     fn = fam.m["_get_scipy_parameters"]
-    ret = fam.return_stmt(fn)
+    ret = fam.return_stmts(fn)[-1]
     site = fn.where(ret)
     got = fam.slots()
     if len(got) > len(sig):
@@ -229,8 +230,13 @@ def siblings(prog, rep, fam):
                   f"parameter formals {not_none} do not default to None: when they are not passed the instance's own value is silently replaced by the default")
         rep.check(got_formals == exp_formals, "C05.siblings", inst + ":formals", site,
                   f"formals {got_formals}", f"parameter formals {got_formals} differ from parameters keys {exp_formals} (order matters: conditionals pass by keyword, users by position)")
-        ret = fam.return_stmt(fn)
-        t = strip_consts(fam.b(fn).term(ret.value, ret))
+        from vstat.terms import flat_alts
+        rets_ = fam.return_stmts(fn)
+        ret = rets_[-1]
+        cand = set()
+        for r_ in rets_:
+            cand |= {a for a in flat_alts(fam.b(fn).term(r_.value, r_)) if a[0] != "const"}
+        t = phi(cand) if cand else ("const", None)
         site = fn.where(ret)
         if t[0] != "call":
             rep.fail("C05.siblings", inst + ":call", site, f"does not return a scipy call: {show(t)[:120]}")
@@ -268,8 +274,13 @@ def support(prog, rep):
     rep.analysed(fn)
     b = builder(prog, fn)
     cfg = cfg_of(fn)
-    ret = [s for s in cfg.all_stmts() if isinstance(s, ast.Return)][0]
-    t = strip_consts(b.term(ret.value, ret))
+    from vstat.terms import flat_alts, guarded_alts
+    rets_ = [s for s in cfg.all_stmts() if isinstance(s, ast.Return)]
+    ret = rets_[-1]
+    cand = set()
+    for r_ in rets_:
+        cand |= {a for a in flat_alts(b.term(r_.value, r_)) if a[0] != "const"}
+    t = phi(cand) if cand else ("const", None)
     site = fn.where(ret)
     xf = P([p for p in fn.positional_params if p != "self"][0])
     ok = t[0] == "call" and t[2] and _is_support_mask(t[2][0], xf)
@@ -290,6 +301,11 @@ def support(prog, rep):
                 pc = path_conditions(prog, fn, b).of(st)
                 if any(l[0] == "call" and l[1] == G("numpy.isnan") for l in pc):
                     zeroed += 1
+    for r_ in rets_:
+        # scalar case written as ``return 0 if np.isnan(d) else d``
+        for lits, a in guarded_alts(b.term(r_.value, r_)):
+            if a == ("const", 0) and any(l[0] == "call" and l[1] == G("numpy.isnan") and l[2] == (t,) for l in lits):
+                zeroed += 1
     rep.check(zeroed >= 2, "C05.support", "ExponentiatedWeibullDistribution.pdf:zero", site,
               "NaN results are mapped to 0 for array and scalar input",
               f"outside the support the density must be 0: expected the NaN->0 mapping for both the array and the scalar case, found {zeroed}")
